@@ -1,9 +1,187 @@
 package worlds
 
+import (
+	"fmt"
+	"sort"
+	"strings"
+	"time"
+
+	"git.sr.ht/~rockorager/vaxis"
+	"git.sr.ht/~rockorager/vaxis/simrt"
+
+	"simharness/simterm"
+)
+
 func init() {
 	Register("C07", func() World { return &frameWorld{prop: "C07"} })
 }
 
-func (w *frameWorld) afterNew07()            {}
-func (w *frameWorld) beforeClose07()         {}
-func (w *frameWorld) finish07(res *RunResult) {}
+// slowReplies delays each kind of reply by a grid latency up to 5 s, or never
+// sends it.
+func slowReplies(s *simrt.Sched, res *RunResult) func(string) (time.Duration, bool) {
+	per := map[string]time.Duration{}
+	drop := map[string]bool{}
+	da1 := 0
+	return func(kind string) (time.Duration, bool) {
+		if kind == "DA1" {
+			// only the start-up query may go unanswered: Suspend/Close
+			// rely on the answer by design
+			da1++
+			if da1 > 1 {
+				return 0, false
+			}
+		}
+		d, ok := per[kind]
+		if !ok {
+			switch s.Tape.Draw(6) {
+			case 0:
+				drop[kind] = true
+			case 1, 2:
+				d = 0
+			default:
+				d = time.Duration(drawGrid(s.Tape, 5_000_000)) * time.Microsecond
+			}
+			per[kind] = d
+			if d > 5*time.Millisecond {
+				res.Fault("reply-late")
+			}
+		}
+		return d, drop[kind]
+	}
+}
+
+func (w *frameWorld) rgbAdvertised() bool {
+	return w.caps.RGB || w.colorterm == "truecolor" || w.colorterm == "24bit"
+}
+
+// afterNew07 compares what Vaxis reports with what the replies established.
+func (w *frameWorld) afterNew07() {
+	vx := w.vx
+	c := w.caps
+	got := vx.SimCaps()
+	want := map[string]bool{
+		"sync": c.Sync, "unicode-core": c.UnicodeCore, "rgb": w.rgbAdvertised(), "kitty-graphics": c.KittyGraphics,
+		"kitty-keyboard": c.KittyKbd, "styled-ul": c.StyledUnderline(), "sixel": c.Sixel, "color-scheme": c.ColorScheme,
+		"size-chars": c.SizeChars, "size-pixels": c.SizePixels, "osc4": c.OSC4, "osc10": c.OSC10, "osc11": c.OSC11,
+		"osc176": c.AppID, "in-band-resize": c.InBandResize, "explicit-width": c.ExplicitWidth,
+		"nozwj": strings.HasPrefix(c.Name, "kitty"),
+	}
+	var keys []string
+	for k := range want {
+		keys = append(keys, k)
+	}
+	sort.Strings(keys)
+	for _, k := range keys {
+		switch {
+		case got[k] && !want[k]:
+			w.res.Violate("capability-invented", "vaxis.New", "Vaxis reports %q although no reply established it; terminal: %s COLORTERM=%q slow=%v", k, capsString(c), w.colorterm, w.slow)
+		case !got[k] && want[k] && !w.slow:
+			w.res.Violate("capability-missed", "vaxis.New", "the terminal's prompt replies established %q but Vaxis does not report it; terminal: %s", k, capsString(c))
+		}
+	}
+	acc := map[string][2]bool{
+		"CanRGB":                   {vx.CanRGB(), want["rgb"]},
+		"CanKittyGraphics":         {vx.CanKittyGraphics(), want["kitty-graphics"]},
+		"CanSixel":                 {vx.CanSixel(), want["sixel"]},
+		"CanReportColor":           {vx.CanReportColor(), want["osc4"]},
+		"CanReportForegroundColor": {vx.CanReportForegroundColor(), want["osc10"]},
+		"CanReportBackgroundColor": {vx.CanReportBackgroundColor(), want["osc11"]},
+		"CanDisplayGraphics":       {vx.CanDisplayGraphics(), want["sixel"] || want["kitty-graphics"]},
+		"CanSetAppID":              {vx.CanSetAppID(), want["osc176"]},
+		"CanUnicodeCore":           {vx.CanUnicodeCore(), want["unicode-core"]},
+		"CanExplicitWidth":         {vx.CanExplicitWidth(), want["explicit-width"]},
+	}
+	keys = keys[:0]
+	for k := range acc {
+		keys = append(keys, k)
+	}
+	sort.Strings(keys)
+	for _, k := range keys {
+		v := acc[k]
+		if v[0] && !v[1] {
+			w.res.Violate("accessor-invented", "vaxis."+k, "%s() is true although no reply established it; terminal: %s slow=%v", k, capsString(c), w.slow)
+		} else if !v[0] && v[1] && !w.slow {
+			w.res.Violate("accessor-missed", "vaxis."+k, "%s() is false although the terminal's prompt replies established it; terminal: %s", k, capsString(c))
+		}
+	}
+	if !w.slow {
+		if id := vx.TerminalID(); id != c.Name {
+			w.res.Violate("terminal-id", "vaxis.TerminalID", "TerminalID() = %q, the terminal identified itself as %q", id, c.Name)
+		}
+		// width method: what Vaxis measures must be what this terminal will do
+		pers := personalityFor(c)
+		for _, g := range append(append([]string{}, widePool...), trickyPool...) {
+			if g == "" {
+				continue
+			}
+			if got, want := vx.RenderedWidth(g), simterm.Measure(pers, g); got != want {
+				w.res.Violate("width-method", "vaxis.RenderedWidth", "RenderedWidth(%q) = %d, the terminal (%s) advances %d columns", g, got, capsString(c), want)
+				break
+			}
+		}
+	}
+}
+
+func (w *frameWorld) beforeClose07() {}
+
+var featureCap = map[string]func(w *frameWorld) bool{
+	"rgb":                 func(w *frameWorld) bool { return w.rgbAdvertised() },
+	"styled-underline":    func(w *frameWorld) bool { return w.caps.StyledUnderline() },
+	"synchronized-output": func(w *frameWorld) bool { return w.caps.Sync },
+	"kitty-keyboard":      func(w *frameWorld) bool { return w.caps.KittyKbd },
+	"unicode-core":        func(w *frameWorld) bool { return w.caps.UnicodeCore },
+	"explicit-width":      func(w *frameWorld) bool { return w.caps.ExplicitWidth },
+	"sixel-scrolling":     func(w *frameWorld) bool { return w.caps.Sixel },
+	"sixel":               func(w *frameWorld) bool { return w.caps.Sixel },
+	"color-scheme":        func(w *frameWorld) bool { return w.caps.ColorScheme },
+	"in-band-resize":      func(w *frameWorld) bool { return w.caps.InBandResize },
+	"app-id":              func(w *frameWorld) bool { return w.caps.AppID },
+	"kitty-graphics":      func(w *frameWorld) bool { return w.caps.KittyGraphics },
+}
+
+// finish07: every use of a gated feature outside the start-up query batch must
+// be covered by an advertisement.
+func (w *frameWorld) finish07(res *RunResult) {
+	for _, u := range w.env.term.Uses {
+		if u.Probe {
+			continue
+		}
+		ok := featureCap[u.Feature]
+		if ok == nil || ok(w) {
+			continue
+		}
+		res.Violate("gated-use", "feature:"+u.Feature, "Vaxis wrote %q (feature %s) to a terminal that never advertised it; terminal: %s COLORTERM=%q slow=%v", u.Seq, u.Feature, capsString(w.caps), w.colorterm, w.slow)
+	}
+	if len(w.env.term.Unknown) > 0 {
+		res.Violate("outside-baseline", "vaxis", "Vaxis wrote sequences outside the baseline xterm vocabulary and outside every gated feature: %v", w.env.term.Unknown[:min(4, len(w.env.term.Unknown))])
+	}
+}
+
+// colour sweep ---------------------------------------------------------------
+
+// sweepFrames builds one frame whose cells carry consecutive direct colours
+// starting at base (as foreground, background or underline colour).
+func sweepFrame(rows, cols int, base uint32, which int) frame {
+	var fr frame
+	c := base
+	for r := 0; r < rows; r++ {
+		for col := 0; col < cols; col++ {
+			col24 := vaxis.RGBColor(uint8(c>>16), uint8(c>>8), uint8(c))
+			st := vaxis.Style{}
+			switch which {
+			case 0:
+				st.Foreground = col24
+			case 1:
+				st.Background = col24
+			default:
+				st.UnderlineColor = col24
+				st.UnderlineStyle = vaxis.UnderlineSingle
+			}
+			fr.Ops = append(fr.Ops, frameOp{Kind: opSetCell, Col: col, Row: r, Cell: mcell{G: "x", W: 1, St: st}})
+			c++
+		}
+	}
+	return fr
+}
+
+var _ = fmt.Sprint
